@@ -27,6 +27,8 @@ ASSUMPTIONS = [
     "the simulated target (pbt/standins/target.py + stdspec) is a faithful conformant SBC target for the commands used; WRITE SAME with UNMAP writes the block (a permitted behaviour); NUMBER OF LOGICAL BLOCKS = 0 is not generated (WSNZ=1 target)",
     "protection information is not modelled: RDPROTECT/WRPROTECT arrive but are not acted on",
     "binding stand-ins as in DESIGN.md Appendix D",
+    "transfers that run past the end of the medium are answered CHECK CONDITION / ILLEGAL REQUEST / LBA OUT OF RANGE by the target: the caller must see a CheckCondition with ASC 21h on both transports and nothing is written",
+    "data of up to three earlier reads that the caller still holds is re-verified after every read",
 ]
 
 BS = [512, 520, 1024, 4096]
